@@ -89,6 +89,9 @@ type FuncResult struct {
 // VerifyFunc generates all obligations of fn against spec.
 func VerifyFunc(p *Program, fn *ssa.Function, spec *FuncSpec, observe map[string]string) (res *FuncResult) {
 	_, short, full := funcForms(fn)
+	// name counters restart for every function: the text of a function's queries (and so the solvers'
+	// behaviour on them, and the answer cache) must not depend on what was verified before it
+	p.qcount, p.epoch = 0, 0
 	x := newExec(p, fn, spec)
 	x.Observe = observe
 	res = &FuncResult{Func: short, ID: full, Spec: spec, Reg: x.reg}
